@@ -1,4 +1,4 @@
 SPECIFICATION TSpec
-INVARIANTS GeneratorOKT ImportFunctionalT ValidAcceptedT CorruptRejectedT RejectIsNoopT HeadsKnownT NoPanicT
+INVARIANTS GeneratorOKT HeaderCorruptRejectedT ImportFunctionalT ValidAcceptedT CorruptRejectedT RejectIsNoopT HeadsKnownT NoPanicT
 POSTCONDITION TraceAccepted
 CHECK_DEADLOCK FALSE
